@@ -761,12 +761,37 @@ def acceptance_utf8(prop, P, defs, ev):
             if sat:
                 wit, which = w, pi
                 break
+        wname = tables[which].name if wit else None
+        if wit is None and d.subs:
+            # "... none of its patterns *or subpatterns*": every subpattern (earlier ones inlined, its own Unicode mode) as a
+            # pattern of its own
+            try:
+                resolved = corpus.resolve_subpatterns(d)
+            except KeyError:
+                resolved = {}
+            if resolved:
+                d0 = Def('subs_of_' + d.id, utf8=False, variants=[Var(f'S{k}', [R(txt)]) for k, txt in enumerate(resolved.values())])
+                try:
+                    stables, _, _ = pipeline.reference_tables(d0)
+                except Exception:       # noqa
+                    stables = None
+                if stables:
+                    si2 = SymInput(N)
+                    R2 = ref.Reference(si2, stables)
+                    inv2 = s_not(lexcheck.valid_utf8(si2))
+                    for pi, nm in enumerate(resolved):
+                        alts = [s_and(simp(si2.len == bvv(j, U)), R2.M(pi, 0, j)) for j in range(1, N + 1)]
+                        sat, w = si2.sat(s_and(s_or(*alts), inv2))
+                        if sat:
+                            wit, wname = w, f'subpattern {nm}'
+                            break
         msg_utf8 = any('can match invalid UTF-8' in e for e in v['errors'])
-        cases.append({'def': d.id, 'non_utf8_witness': wit.hex() if wit else None, 'pattern': tables[which].name if wit else None,
+        tables_which_name = wname
+        cases.append({'def': d.id, 'non_utf8_witness': wit.hex() if wit else None, 'pattern': tables_which_name,
                       'derive': v['status'], 'utf8_diag': msg_utf8})
         if wit is not None and v['status'] == 'accepted':
             rc = max(rc, known_or_violation(prop, {'definition': d.id, 'what': 'nonutf8-accepted'},
-                                            f'{d.id}: {tables[which].name} matches the invalid UTF-8 string {wit.hex()} but the str-mode '
+                                            f'{d.id}: {wname} matches the invalid UTF-8 string {wit.hex()} but the str-mode '
                                             f'definition is accepted', {'property': prop, 'def': d.id, 'witness_hex': wit.hex(),
                                                                        'source': corpus.render_enum(d)}, ev, 'nonutf8-' + d.id))
         if wit is None and msg_utf8:
